@@ -67,7 +67,7 @@ def run(tier):
         for seq in use:
             lang = 'ja' if 'ja' in seq or rng.random() < 0.3 else 'en'
             rf.set_lang(lang)
-            b = trees.make_batch(rng, lang, awkward=0.3, licensed_p=0.8)
+            b = trees.make_batch(rng, lang, awkward=0.3, licensed_p=0.8, sparse=rng.random() < 0.5)
             fresh = {}
             for f in set(seq):
                 fresh[f] = render(P, trees.real_batch(b, random.Random(7)), f, captured)
